@@ -160,9 +160,11 @@ def sync_counting(ctx):
     # COSyncUpdate: one increment per recognised SYNC for every registered TPDO
     f = 'COSyncUpdate'
     m.need(f, 'COSyncHandler')
+    NT = m.extent('CO_SYNC', 'TPdo')
+    NR = m.extent('CO_SYNC', 'RPdo')
     for match in (0, 1):
         inputs = {'frm->Identifier': 0x80, 'sync->CobId': (0x80 if match else 0x81)}
-        for i in range(4):
+        for i in range(NT):
             inputs['sync->TPdo[%d]' % i] = 1 if i % 2 == 0 else 0
             inputs['sync->TSync[%d]' % i] = 3
         trs = _run(m, f, inputs, filt=lambda k, fld: fld == ('CO_SYNC', 'TSync'))
@@ -171,7 +173,7 @@ def sync_counting(ctx):
             st = {}
             for e in t.stores():
                 st[e[1]] = e[2]
-            exp = dict(('sync->TSync[%d]' % i, 4) for i in range(4) if i % 2 == 0) if match else {}
+            exp = dict(('sync->TSync[%d]' % i, 4) for i in range(NT) if i % 2 == 0) if match else {}
             if st != exp:
                 bad = 'counters after the frame: %s, required %s' % (st, exp)
             if (t.ret is not None and t.ret >= 0) != bool(match):
@@ -187,11 +189,12 @@ def sync_counting(ctx):
     for tnum in (0, 1, 3):
         for cnt in (1, 2, 3):
             inputs = {}
-            for i in range(4):
+            for i in range(NT):
                 inputs['sync->TPdo[%d]' % i] = 1 if i == 1 else 0
-                inputs['sync->RPdo[%d]' % i] = 0
                 inputs['sync->TNum[%d]' % i] = tnum
                 inputs['sync->TSync[%d]' % i] = cnt
+            for i in range(NR):
+                inputs['sync->RPdo[%d]' % i] = 0
             trs = _run(m, f, inputs, filt=lambda k, fld: fld == ('CO_SYNC', 'TSync'))
             bad = None
             for t in trs:
@@ -270,11 +273,13 @@ def rpdo_dispatch(ctx):
     for ident in (0x205, 0x206, 0x305):
         inputs = {'frm->Identifier': ident}
         cfg = {0: (1, 0x205), 1: (0, 0x206), 2: (1, 0x305), 3: (0, 0x305)}
+        for n in range(4, m.extent('CO_NODE', 'RPdo')):
+            cfg[n] = (0, 0x206)          # further channels: disabled
         for n, (en, cid) in cfg.items():
             inputs['pdo[%d].Flag' % n] = en
             inputs['pdo[%d].Identifier' % n] = cid
         trs = _run(m, f, inputs)
-        exp = {0x205: True, 0x206: False, 0x305: True}[ident]
+        exp = any(en and cid == ident for n, (en, cid) in cfg.items() if n < m.extent('CO_NODE', 'RPdo'))
         bad = None
         for t in trs:
             if (t.ret not in (0, None)) != exp:
